@@ -177,6 +177,9 @@ def make_generic(rng, i):
         order[order.index("Debug")] = dbg_type
     if "Default" in traits and kind == "struct" and rng.random() < 0.3:
         order[order.index("Default")] = "Default(new)"
+    if wkind != "T: ::core::iter::Iterator":
+        # `bound(*)`: every type parameter instead of every delegated field type (enough for the palette's types)
+        order = [t + "(bound(*))" if (t in ("Debug", "Clone", "PartialEq", "Hash", "Ord") + (("PartialOrd",) if "Ord" not in traits else ()) and rng.random() < 0.12) else t for t in order]
     ta = "#[educe(%s)]\n" % ", ".join(order) if rng.random() < 0.6 else "".join("#[educe(%s)]\n" % t for t in order)
     kw = "struct" if kind == "struct" else "enum"
     tail = ";" if kind == "struct" and not body.startswith(" {") else ""
@@ -187,6 +190,85 @@ def make_generic(rng, i):
     meta.update({"traits": sorted(traits), "lifetimes": int("'a" in used), "type_params": len([p for p in tps if p in used]), "consts": int("N" in used),
                  "where": bool(where), "raw_ident": "r#" in src, "repr": "#[repr" in src})
     return src, meta
+
+
+def make_access(rng, i):
+    """Deref / DerefMut / Into on generic structs and enums (plus Debug / Clone), well-typed by construction"""
+    kind = rng.choice(["struct", "enum"])
+    lt = rng.random() < 0.3
+    cn = rng.random() < 0.3
+    target = rng.choice(["T", "u8", "Vec<T>", "Option<T>"])           # the Deref target: the same type in every variant
+    with_mut = rng.random() < 0.5
+    with_deref = rng.random() < 0.75
+    into_t = rng.choice([None, "u8", "Vec<u8>", "u16"])
+    if not with_deref and not into_t:
+        into_t = "u8"
+    others = ["u8", "u16", "Option<T>", "::core::marker::PhantomData<T>", "Box<T>"] + (["&'a T"] if lt else []) + (["[u8; N]"] if cn else [])
+    extra = [t for t in ("Debug", "Clone") if rng.random() < 0.4]
+
+    def variant(shape, n):
+        fs = []
+        d = rng.randrange(n)
+        for j in range(n):
+            ty = target if (j == d and with_deref) else rng.choice(others)
+            ms = []
+            if with_deref and j == d and (n > 1 or rng.random() < 0.5):
+                ms.append("Deref")
+                if with_mut:
+                    ms.append("DerefMut")
+            fs.append([ms, FIELD_NAMES[j], ty])
+        if into_t:
+            # a field of the target type, marked when it is not the only candidate
+            k = rng.randrange(n)
+            if not (with_deref and k == d):
+                fs[k][2] = into_t
+            elif target != into_t:
+                fs.append([[], FIELD_NAMES[n], into_t])
+                k = n
+            cands = [j for j, f in enumerate(fs) if f[2] == into_t]
+            if len(fs) > 1 and (len(cands) > 1 or rng.random() < 0.5):
+                fs[k][0].append("Into(%s)" % into_t)
+            if with_deref and len(fs) > 1 and not fs[d][0]:
+                fs[d][0] += ["Deref"] + (["DerefMut"] if with_mut else [])
+        def at(ms):
+            if not ms:
+                return ""
+            return "#[educe(%s)] " % ", ".join(ms) if rng.random() < 0.5 else "".join("#[educe(%s)] " % m for m in ms)
+        if shape == "tuple":
+            return "(%s)" % ", ".join("%s%s" % (at(ms), ty) for ms, _, ty in fs), fs
+        return " { %s }" % ", ".join("%s%s: %s" % (at(ms), nm, ty) for ms, nm, ty in fs), fs
+
+    used_src = ""
+    if kind == "struct":
+        shape = rng.choice(["tuple", "named"])
+        body, fs = variant(shape, rng.randint(1, 4))
+        used_src = body
+    else:
+        vs = []
+        for k in range(rng.randint(1, 3)):
+            shape = rng.choice(["tuple", "named"])
+            b, fs = variant(shape, rng.randint(1, 3))
+            vs.append("%s%s" % (VARIANTS[k], b))
+        body = " { %s }" % ", ".join(vs)
+        used_src = body
+    params = []
+    if "'a" in used_src:
+        params.append("'a")
+    if "T" in used_src.replace("PhantomData", ""):
+        params.append("T")
+    if "N]" in used_src:
+        params.append("const N: usize")
+    where = " where T: 'a" if ("'a" in params and "T" in params) else ""
+    traits = (["Deref"] + (["DerefMut"] if with_mut else []) if with_deref else []) + (["Into(%s)" % into_t] if into_t else []) + extra
+    rng.shuffle(traits)
+    g = "<%s>" % ", ".join(params) if params else ""
+    ta = "#[educe(%s)]\n" % ", ".join(traits) if rng.random() < 0.6 else "".join("#[educe(%s)]\n" % t for t in traits)
+    kw = "struct" if kind == "struct" else "enum"
+    if kind == "struct" and body.startswith("("):
+        src = "#[derive(Educe)]\n%spub %s A%d%s%s%s;" % (ta, kw, i, g, body, where)
+    else:
+        src = "#[derive(Educe)]\n%spub %s A%d%s%s%s" % (ta, kw, i, g, where, body)
+    return src, {"kind": "access/" + kind, "traits": traits, "lifetimes": int("'a" in params), "consts": int("const N: usize" in params), "where": bool(where)}
 
 
 def compile_lib(path, so):
@@ -265,7 +347,7 @@ def main(tier):
     # pool B: generic definitions
     gdefs, gmeta = [], {}
     for i in range(n_generic):
-        src, meta = make_generic(rng, i)
+        src, meta = make_generic(rng, i) if i % 5 else make_access(rng, i)
         gdefs.append((i, src))
         gmeta[i] = meta
     chunk = 500
